@@ -50,6 +50,10 @@ class BaseGotranODECodePrinter(StrPrinter):
     def _print_And(self, expr):
         return f"And({', '.join(self._print(a) for a in expr.args)})"
 
+    def _print_Exp1(self, expr):
+        # exp(1) is evaluated to Euler's number, which StrPrinter writes as 'E'
+        return "exp(1)"
+
     def _print_BooleanFalse(self, expr):
         return "0"
 
